@@ -70,3 +70,37 @@ Example C05_nonvacuous :
   /\ option_map ps_id (nlookup (store s) 0) = Some 6%N
   /\ check_C05 {| c_max := 2; c_streams := streams; c_labels := ls; c_obs := run_obs 2 streams (init streams) ls |} = true.
 Proof. vm_compute. repeat split. Qed.
+
+(* ---- the create-collection event: first checkpoint of a new collection and its creation downstream
+   (model: C05/Create.v, cases of harness h_c05e checked by C05.ECheck) ---- *)
+Require Verif.C05.Create Verif.C05.CreateProofs Verif.C05.ECheck Verif.C05.ECheckProofs.
+
+(* for every history of create-collection events - the store or the downstream refusing, the process crashing after any
+   number of durable effects of an event - pauses, resumes and restarts: at every instant a collection whose creation the
+   downstream has acknowledged has a checkpoint, and every collection a reader has started while it existed downstream was
+   started from a seek position (never from "latest") *)
+Theorem C05_created_has_checkpoint : forall ls,
+  let s := Create.run Create.cfg_now Create.init ls in
+  (forall c, Create.mem c (Create.dn s) = true -> Create.mem c (Create.ck s) = true)
+  /\ (forall c d h, In (c, d, h) (Create.seeks s) -> d = true -> h = true).
+Proof. exact CreateProofs.create_every_history. Qed.
+Print Assumptions C05_created_has_checkpoint.
+
+(* an event that nothing interrupts does both *)
+Theorem C05_create_completes : forall s c,
+  Create.dead s = false -> Create.ev s = true -> Create.running s = true ->
+  let s' := Create.step Create.cfg_now s (Create.LCreate c false false None) in
+  Create.mem c (Create.ck s') = true /\ Create.mem c (Create.dn s') = true.
+Proof. exact CreateProofs.create_completes. Qed.
+Print Assumptions C05_create_completes.
+
+(* the checker evaluated on the implementation's observations accepts every trace of this model *)
+Theorem C05_create_checker_accepts_model : forall k,
+  ECheck.ec_obs k = Create.trace Create.cfg_now Create.init (ECheck.ec_ops k) -> ECheck.check_C05e k = true.
+Proof. exact ECheckProofs.agreeing_case_accepted. Qed.
+Print Assumptions C05_create_checker_accepts_model.
+
+(* with the two effects in the other order the statement is false: a crash between them, then a restart *)
+Theorem C05_create_swapped_refuted : exists ls, ~ CreateProofs.Inv (Create.run Create.cfg_swapped Create.init ls).
+Proof. exact CreateProofs.swapped_refuted. Qed.
+Print Assumptions C05_create_swapped_refuted.
